@@ -1,4 +1,7 @@
 """C05 - decoders return valid corrections that reproduce the syndrome."""
+import json
+import os
+
 import numpy as np
 
 from vf import decoding, domain, gf2
@@ -39,7 +42,56 @@ MANIFEST_ENTRY = {
 }
 
 
+_CHILD = r'''
+import sys, json, io, contextlib, os
+sys.path.insert(0, sys.argv[1]); sys.path.insert(0, sys.argv[2])
+case = json.loads(sys.argv[3])
+with contextlib.redirect_stdout(io.StringIO()):
+    from checks import c05_decoder_validity as c
+    res = c.eval_case(case)
+sys.stdout.write("\nRESULT " + json.dumps({k: res[k] for k in ("fails", "labels", "evals", "nontrivial_keys")}) + "\n")
+sys.stdout.flush()
+'''
+
+
+def isolated(case):
+    """Run the case in an interpreter of its own: a decoder that corrupts
+    memory takes its process down (or only at exit), which is a violation of
+    'returns ... without raising', not a harness error."""
+    import subprocess
+    import sys
+    from vf import runner
+    env = dict(os.environ, C05_CHILD='1')
+    p = subprocess.run([sys.executable, '-W', 'ignore', '-c', _CHILD, runner.REPO,
+                        runner.VERIF_DIR, json.dumps(case)],
+                       env=env, capture_output=True, text=True, timeout=1800)
+    res = None
+    for line in p.stdout.splitlines():
+        if line.startswith('RESULT '):
+            res = json.loads(line[7:])
+    if p.returncode != 0:
+        tag = f"{case['decoder']}{case.get('dparams')} on {case['code'].get('cls')}{case['code'].get('size')}"
+        how = (f'killed by signal {-p.returncode}' if p.returncode < 0 else f'exit status {p.returncode}')
+        when = 'after returning its corrections' if res is not None else 'while decoding'
+        msg = [ln for ln in p.stderr.strip().splitlines() if ln.strip()][-1:] or ['']
+        if res is None and 'Traceback' in p.stderr and p.returncode == 1 and 'Error' in msg[0] \
+                and 'MemoryError' not in msg[0]:
+            raise runner.HarnessError('isolated child failed: ' + p.stderr[-600:])
+        return {'fails': [{'relation': 'decoder_crashes_interpreter',
+                           'detail': f'{tag}: the interpreter running the decoder ended with {how} '
+                                     f'{when}: {msg[0][:200]}', 'sig': {'decoder': case['decoder']}}],
+                'nontrivial': False, 'nontrivial_keys': [], 'labels': [case['decoder'], 'isolated'],
+                'evals': 1}
+    if res is None:
+        raise runner.HarnessError('isolated child printed no result: ' + p.stderr[-400:])
+    res['labels'] = res['labels'] + ['isolated']
+    res['nontrivial'] = False
+    return res
+
+
 def eval_case(case):
+    if case.get('isolated') and not os.environ.get('C05_CHILD'):
+        return isolated(case)
     fails = []
 
     def fail(rel, detail):
@@ -191,6 +243,18 @@ def enumerated(seed, quick):
                                         noise_deformation=nd, error_rate=rate,
                                         code=domain.code_case(cls, size), errors='weight12',
                                         n_errors=12 if quick else 60, rseed=seed * 1000 + i))
+    # BP-OSD with the options the command line writes into every input file
+    # (generate-input: max_bp_iter 1000, osd_order 100), each in an
+    # interpreter of its own
+    for cls, size in (('RotatedPlanar2DCode', (2, 2)), ('Toric2DCode', (2, 2)),
+                      ('Toric2DCode', (3, 3)), ('Planar2DCode', (3, 3)),
+                      ('Toric3DCode', (2, 2, 2)), ('XCubeCode', (2, 2, 2))):
+        for order in (100, 40):
+            i += 1
+            out.append(dict(base, decoder='BeliefPropagationOSDDecoder',
+                            dparams={'max_bp_iter': 1000, 'osd_order': order},
+                            code=domain.code_case(cls, size), errors='weight12',
+                            n_errors=10, rseed=seed * 1000 + i, isolated=True))
     # BP-OSD on deformed (non-CSS) small codes, weight <= 2
     for cls, size, dn in (('Toric2DCode', (2, 3), 'XZZX'), ('RotatedPlanar2DCode', (3, 3), 'XY'),
                           ('Planar2DCode', (2, 3), 'XZZX'), ('RotatedPlanar3DCode', (2, 2, 2), 'XZZX'),
